@@ -146,6 +146,36 @@ class Window(Model):
         return Seq(out, n, 'vec')
 
 
+class FromFnM(Model):
+    """std::iter::from_fn(f): every next() calls f (side effects and all)"""
+
+    def __init__(self, f):
+        self.f = f
+
+    def next(self, ip):
+        r = yield from ip.call_closure(self.f, [])
+        return self, r
+
+    def ite(self, c, o):
+        return self
+
+
+class TakeM(Model):
+    """Iterator::take(k) over an iterator that must stay lazy (its next() has side effects)"""
+
+    def __init__(self, inner, k):
+        self.inner, self.k = inner, k
+
+    def next(self, ip):
+        if not ip.path.branch(self.k > 0, 'take'):
+            return self, NONE
+        inner, o = yield from iter_next(ip, self.inner)
+        return TakeM(inner, z3.simplify(self.k - 1)), o
+
+    def ite(self, c, o):
+        return self
+
+
 class Adaptor(Model):
     """Map / Filter / Zip / Cloned / Enumerate / Skip / Take over arbitrary inner iterators"""
 
@@ -476,6 +506,16 @@ class SetM(Model):
             out = ite_val(self.is_min(i), self.slots[i][1], out)
         return out
 
+    def sorted_seq(self):
+        """the elements in ascending order as a Seq (selection by repeated minimum: fork-free)"""
+        cur = SetM(list(self.slots))
+        out = []
+        for _ in range(len(self.slots)):
+            m = cur.min_elem()
+            out.append(m)
+            cur = SetM([(z3.simplify(z3.And(u, z3.Not(cur.is_min(i)))), x) for i, (u, x) in enumerate(cur.slots)])
+        return Seq(out, self.count(), 'vec')
+
     def removed(self, e):
         return SetM([(z3.And(u, z3.Not(eq_val(x, e))), x) for u, x in self.slots])
 
@@ -791,7 +831,7 @@ def install(ctx):
                 raise PanicPath('panic', 'drain range out of bounds')
             cap = len(s.elems)
             k = z3.simplify(b - a)
-            rest = [select(s.elems, z3.If(a > j, j, j + k)) if cap else None for j in range(cap)]
+            rest = [select(s.elems, z3.simplify(z3.If(a > j, j, j + k)), default=s.elems[j]) for j in range(cap)]
             write_loc(r.loc, Seq(rest, z3.simplify(s.n - k), s.kind))
             return Window(s, z3.simplify(a), z3.simplify(b))
         raise Unsupported('drain of a sub-range')
@@ -834,6 +874,26 @@ def install(ctx):
         if pc['method'] == 'front':
             return opt_sym(s.n > 0, Ref(Loc(Cell(s.elems[0], 'front'))))
         return opt_sym(s.n > 0, Ref(Loc(Cell(select(s.elems, z3.If(s.n > 0, s.n - 1, 0)), 'back'))))
+
+    @M.reg('iter::from_fn', 'from_fn')
+    def iter_from_fn(ip, pc, args, dt):
+        return FromFnM(args[0])
+
+    @M.reg('Vec::retain', 'VecDeque::retain', 'Vec::retain_mut')
+    def vec_retain(ip, pc, args, dt):
+        r, f = args
+        s = read_loc(r.loc)
+        if getattr(s, 'lazy', None):
+            raise Unsupported('retain on a lazily extended sequence')
+        out = Seq.empty(s.kind)
+        for i, e in enumerate(s.elems):
+            if not ip.path.branch(s.n > i, 'retain.len'):
+                break
+            keep = yield from ip.call_closure(f, [Ref(Loc(Cell(e, 'retain-arg')), pc['method'] == 'retain_mut')])
+            if ip.path.branch(keep.t, 'retain.keep'):
+                out = out.push(e)
+        write_loc(r.loc, out)
+        return UNIT
 
     @M.reg('vec::from_elem', 'from_elem')
     def vec_from_elem(ip, pc, args, dt):
@@ -939,8 +999,7 @@ def install(ctx):
     def it_take(ip, pc, args, dt):
         it, k = as_window(ip, args[0]), args[1]
         if not isinstance(it, Window):
-            s = yield from collect_seq(ip, it)
-            it = Window(s, 0, s.n)
+            return TakeM(it, k.t)          # stays lazy: draining the inner iterator first would run its side effects too often
         hi = z3.If(it.lo + k.t < it.hi, it.lo + k.t, it.hi)
         return Window(it.seq, it.lo, z3.simplify(hi), it.by_ref, it.root)
 
@@ -1183,6 +1242,29 @@ def install(ctx):
     @M.reg('BTreeSet::new', '<BTreeSet as Default>::default')
     def set_new(ip, pc, args, dt):
         return SetM.empty()
+
+    @M.reg('BTreeSet::iter', 'BTreeSet::into_iter', '<BTreeSet as IntoIterator>::into_iter')
+    def set_iter(ip, pc, args, dt):
+        a = args[0]
+        s = read_loc(a.loc) if isinstance(a, Ref) else a
+        if not s.slots:
+            return Window(Seq.empty(), 0, z3.IntVal(0))
+        seq = s.sorted_seq()
+        return Window(seq, 0, seq.n, isinstance(a, Ref))
+
+    @M.reg('BTreeSet::split_off')
+    def set_split_off(ip, pc, args, dt):
+        r, key = args
+        key = deref_all(key)
+        s = read_loc(r.loc)
+        ge = []
+        lt_ = []
+        for u, x in s.slots:
+            lt, eq = lex_cmp(x, key)
+            lt_.append((z3.simplify(z3.And(u, lt)), x))
+            ge.append((z3.simplify(z3.And(u, z3.Not(lt))), x))
+        write_loc(r.loc, SetM(lt_))
+        return SetM(ge)
 
     @M.reg('BTreeSet::first')
     def set_first(ip, pc, args, dt):
